@@ -18,6 +18,7 @@ structure St where
   cfg : Cfg
   w : World
   out : List String := []
+  lenient : Bool := false     -- the local transaction being collected carries on after failed statements
 
 /-- run one local transaction (tokens already parsed) -/
 def runLocal (st : St) (ltx : LocalTx) : St :=
@@ -31,6 +32,16 @@ def runLocal (st : St) (ltx : LocalTx) : St :=
       | some bs =>
         let img := if bs.hasLog then "+".intercalate (bs.b.items.map showItem) else "noundolog"
         { st with w := w', out := st.out ++ [s!"L:ok:k={showKeys bs.b.lockKeys}:img={img}"] }
+
+def runLocalLenient (st : St) (ltx : LocalTx) : St :=
+  let w' := runLocalTxLenient st.sc st.cfg st.w ltx
+  if w'.branches.length == st.w.branches.length then { st with w := w', out := st.out ++ ["L:ok:nobranch"] }
+  else
+    match w'.branches.getLast? with
+    | none => { st with w := w', out := st.out ++ ["L:ok:nobranch"] }
+    | some bs =>
+      let img := if bs.hasLog then "+".intercalate (bs.b.items.map showItem) else "noundolog"
+      { st with w := w', out := st.out ++ [s!"L:ok:k={showKeys bs.b.lockKeys}:img={img}"] }
 
 def rollbackBranchS (st : St) (i : Nat) : St :=
   match st.w.branches[i]? with
@@ -47,10 +58,14 @@ instance : Inhabited St := ⟨{ sc := { ncols := 0, pk := [] }, cfg := { validat
 
 /-- script interpreter -/
 partial def runScript (st : St) : List String → Option LocalTx → St
-  | [], cur => match cur with | some l => runLocal st l | none => st
+  | [], cur => match cur with | some l => (if st.lenient then runLocalLenient st l else runLocal st l) | none => st
   | tok :: rest, cur =>
-    let flush (st : St) : St := match cur with | some l => runLocal st l | none => st
+    let flush (st : St) : St :=
+      match cur with
+      | some l => { (if st.lenient then runLocalLenient st l else runLocal st l) with lenient := false }
+      | none => st
     if tok == "L" then runScript (flush st) rest (some [])
+    else if tok == "Lc" then runScript { flush st with lenient := true } rest (some [])
     else if tok == "END" then runScript (flush st) rest none
     else if tok.startsWith "F" then
       let st1 := flush st
@@ -73,7 +88,7 @@ partial def runScript (st : St) : List String → Option LocalTx → St
       -- the coordinator rolls the NEXT local transaction's branch back between its registration and
       -- its undo-log flush: a marker row is left, the late flush hits the unique key, nothing commits
       let st1 := flush st
-      let stmts := rest.takeWhile fun t => t != "L" && t != "LR" && t != "END" && !(t.startsWith "RB") && t != "SNAP" && !(t.startsWith "F")
+      let stmts := rest.takeWhile fun t => t != "L" && t != "Lc" && t != "LR" && t != "END" && !(t.startsWith "RB") && t != "SNAP" && !(t.startsWith "F")
       let rest' := rest.drop stmts.length
       match stmts.mapM parseStmt with
       | none => { st1 with out := st1.out ++ ["bad-stmt-in-LR"] }
